@@ -154,7 +154,9 @@ REJECTS = {
     ('sequence_number', 'number'): [-1, 65536, 1.0, '1', None, 2 ** 31],
     ('channel_prefix', 'channel'): [-1, 256, 1.0, None, '0'],
     ('midi_port', 'port'): [-1, 256, 0.0, None, '0'],
-    ('key_signature', 'key'): ['H', 'c', '', None, 5, 'Cm#', 'cb', 'C ', 'Hm', 'Fb', 'E#', b'C', 0],
+    ('key_signature', 'key'): ['H', 'c', '', None, 5, 'Cm#', 'cb', 'C ', 'Hm', 'Fb', 'E#', b'C', 0]
+    + [(sf, mi) for sf in range(-7, 8) for mi in (0, 1)] + [[0, 0], (0,), (0, 0, 0), ('C',), -7, 7, 1.0, 'C\x00', ' C', 'CM',
+                                                             'c#m', 'AM', 'Am ', True],
     ('smpte_offset', 'frame_rate'): [23, '24', 29.98, None, 0, 31, 60],
     ('smpte_offset', 'hours'): [-1, 256, 1.0, None, '1'],
     ('smpte_offset', 'minutes'): [-1, 60, 255, 1.0, None],
